@@ -74,11 +74,27 @@ def proj(itask):
         "outs": sorted(out_name(t) for t in st.outputs.get_completed_outputs()),
         "sat": sat, "pre": pre, "spre": spre,
         "xsat": {k: bool(v) for k, v in sorted(st.xtriggers.items())},
+        "xneed": _xneed(itask),
         "manual": bool(itask.is_manual_submit), "fwait": bool(itask.flow_wait),
         "prep": bool(itask.waiting_on_job_prep), "transient": bool(itask.transient),
         "etry": _try(itask, "execution"), "stry": _try(itask, "submission"),
         "complete": bool(st.outputs.is_complete()),
     }
+
+def _xneed(itask):
+    """Signatures of the (non-retry) xtriggers this task still waits for."""
+    schd = TR.schd
+    out = []
+    if schd is None:
+        return out
+    for label, sat in itask.state.xtriggers.items():
+        if sat or label.startswith("_cylc"):
+            continue
+        try:
+            out.append(schd.xtrigger_mgr.get_xtrig_ctx(itask, label).get_signature())
+        except Exception:
+            pass
+    return sorted(out)
 
 def _try(itask, kind):
     from cylc.flow.task_action_timer import TimerFlags
